@@ -295,6 +295,7 @@ def dynamo_traces(rep: Report, rng: random.Random, variants: List[int]) -> List[
         if ran_err and not any(t["err"] for t in seen):
             rep.violation(f"unit_scale(Net({v})) raised when called: {ran_err}", {"variant": v, "error": ran_err}, key="dynamo_call_raised")
         for t in seen:
+            t["variant"] = v
             t["ran"] = t["ran"] and not ran_err
         traces += seen
         # weights re-initialised in the copy, original untouched
@@ -309,6 +310,42 @@ def dynamo_traces(rep: Report, rng: random.Random, variants: List[int]) -> List[
             if not torch.equal(t, orig_state[k]):
                 rep.violation(f"unit_scale modified the original module's {k}", {"variant": v, "tensor": k}, key="original_modified")
     return traces
+
+
+def graph_case(case_seed: int) -> Dict[str, Any]:
+    """One self-contained random graph through the real backend; the case seed is recorded for replays."""
+    import unit_scaling.functional as U
+
+    rng = random.Random(case_seed)
+    use_user = rng.random() < 0.35
+    gen = Gen(rng, use_user)
+    gm, feed = gen.build(rng.randint(1, 16))
+    replace: Dict[Callable, Callable] = {}
+    umap: List[List[str]] = []
+    if use_user:
+        replace[my_act] = U.gelu
+        umap.append(["my.op", "U.gelu"])
+        if rng.random() < 0.5:
+            replace[F.silu] = my_silu
+            umap.append(["F.silu", "my.silu"])
+    t = trace_for(gm, feed, replace, umap)
+    t["code"] = gm.code
+    t["case_seed"] = case_seed
+    return t
+
+
+def judge(rep: Report, traces: List[Dict[str, Any]]) -> None:
+    payload = [{k: t[k] for k in ("g", "umap", "out", "err", "ran")} for t in traces]
+    B = 2000
+    for i in range(0, len(payload), B):
+        out = common.validate_traces_parallel("UnitScale_Trace", "UnitScale_Trace.cfg", payload[i : i + B], chunks=12 if len(payload) > 24 else 1, timeout=2400, tag="ustr", heap="3g")
+        rep.add_trace_result(out)
+        for (l, clause) in out["fails"]:
+            t = traces[i + l - 1]
+            if clause.startswith("harness_"):
+                raise common.MachineryError(f"UnitScale_Trace: {clause} for\n{t.get('code', '')}")
+            rep.violation(f"unit_scaling_backend: {clause}{' -- ' + t['err'] if t['err'] else ''}{' -- ' + t.get('run_error', '') if t.get('run_error') else ''}; input targets={[n['tgt'] for n in t['g']]}; result targets={[n['tgt'] for n in t['out']]}",
+                          {k: t[k] for k in ("g", "umap", "out", "err", "ran")} | {"code": t.get("code", ""), "case_seed": t.get("case_seed"), "variant": t.get("variant")}, key=f"{clause}")
 
 
 def run(rep: Report, tier: str) -> None:
@@ -334,33 +371,11 @@ def run(rep: Report, tier: str) -> None:
     lib = sorted(fxgen.target_name(k) for k in U.torch_map)
     traces: List[Dict[str, Any]] = []
     for i in range(120 if quick else 1500):
-        use_user = rng.random() < 0.35
-        gen = Gen(rng, use_user)
-        gm, feed = gen.build(rng.randint(1, 16))
-        replace: Dict[Callable, Callable] = {}
-        umap: List[List[str]] = []
-        if use_user:
-            replace[my_act] = U.gelu
-            umap.append(["my.op", "U.gelu"])
-            if rng.random() < 0.5:
-                replace[F.silu] = my_silu
-                umap.append(["F.silu", "my.silu"])
-        t = trace_for(gm, feed, replace, umap)
-        t["code"] = gm.code
+        t = graph_case(rng.randrange(1 << 30))
         traces.append(t)
         rep.case(("graph", i), nontrivial=sum(1 for n in t["g"] if n["tgt"] in ("op.add", "op.iadd")) >= 1)
     traces += dynamo_traces(rep, rng, [0, 1, 2] if quick else list(range(8)))
-    payload = [{k: t[k] for k in ("g", "umap", "out", "err", "ran")} for t in traces]
-    B = 2000
-    for i in range(0, len(payload), B):
-        out = common.validate_traces_parallel("UnitScale_Trace", "UnitScale_Trace.cfg", payload[i : i + B], chunks=12, timeout=2400, tag="ustr", heap="3g")
-        rep.add_trace_result(out)
-        for (l, clause) in out["fails"]:
-            t = traces[i + l - 1]
-            if clause.startswith("harness_"):
-                raise common.MachineryError(f"UnitScale_Trace: {clause} for\n{t.get('code', '')}")
-            rep.violation(f"unit_scaling_backend: {clause}{' -- ' + t['err'] if t['err'] else ''}{' -- ' + t.get('run_error', '') if t.get('run_error') else ''}; input targets={[n['tgt'] for n in t['g']]}; result targets={[n['tgt'] for n in t['out']]}",
-                          {k: t[k] for k in ("g", "umap", "out", "err", "ran")} | {"code": t.get("code", "")}, key=f"{clause}")
+    judge(rep, traces)
     rep.extra["library_torch_map"] = lib
     rep.rule = "random well-nested graphs of 1-16 ops (0-4 nested residual blocks; skip = input / residual output / plain sum; plain adds incl. after the last residual; scalar and in-place adds; user replacements in 35%) through the real backend + a module family through unit_scale()/TorchDynamo; non-trivial = graphs with at least one add"
     if traces:
@@ -370,10 +385,16 @@ def run(rep: Report, tier: str) -> None:
 
 
 def replay(rep: Report, path: str) -> None:
+    """Graph cases are re-created from their case seed; TorchDynamo cases from their Net variant."""
     d = json.load(open(path))
     c = d["case"]
     rep.case("replay")
-    rep.case(json.dumps(c)[:200])
-    rep.sample({"input_targets": [n["tgt"] for n in c.get("g", [])]})
-    # the recorded graphs are kept in the replay file for inspection; the verdict comes from re-running the seeded generation on the current tree
-    run(rep, "quick")
+    rep.case(json.dumps({"case_seed": c.get("case_seed"), "variant": c.get("variant")}))
+    rep.sample({"input_targets": [n["tgt"] for n in c.get("g", [])], "case_seed": c.get("case_seed"), "variant": c.get("variant")})
+    torch.set_num_threads(2)
+    if c.get("case_seed") is not None:
+        judge(rep, [graph_case(c["case_seed"])])
+    elif c.get("variant") is not None:
+        judge(rep, dynamo_traces(rep, random.Random(1), [int(c["variant"])]))
+    else:
+        run(rep, "quick")
